@@ -340,6 +340,21 @@ func ruleC07R2(c *Ctx) {
 		return
 	}
 	mg := merges[0]
+	// the merge is part of the success path of the evaluator itself, not of a function it defers (which also runs
+	// when the schema fails)
+	deferred := false
+	for f := mg.Parent(); f != nil && f != m.E; f = f.Parent() {
+		core.EachInstr(f.Parent(), func(i ssa.Instruction) {
+			if d, ok := i.(*ssa.Defer); ok {
+				for _, src := range append(traceSources(d.Call.Value), d.Call.Value) {
+					if mc, ok := src.(*ssa.MakeClosure); ok && mc.Fn == ssa.Value(f) {
+						deferred = true
+					}
+				}
+			}
+		})
+	}
+	c.R.Check(!deferred, rule, "merge:not-deferred", c.pos(mg), "the merge into the caller's record is not made by a deferred function", "the frame's annotations are merged into the caller's by a deferred function, which runs on every exit: the evaluations of a schema that fails (a failing branch of anyOf, a failing `if`) become visible to the caller, and unevaluated* no longer applies to what they covered")
 	c.R.Check(m.isFrameAnns(mg.Call.Args[1]), rule, "merge:source-is-frame", c.pos(mg), "the merged record is the frame's own collector", "the record merged into the caller's annotations is not the frame's collector")
 	// after the merge only the success epilogue may run
 	okEpilogue := true
